@@ -207,6 +207,13 @@ def Tree.dump : Tree → String
   | node c l i k v r =>
     s!"({i} {k} {v} {if c = black then "B" else "R"} {l.dump} {r.dump})"
 
+/-- preorder dump with the parent index of every node (0 for the root), as `render` of DESIGN.md: the functional tree
+    determines the parent links, the real tree stores them -/
+def Tree.dumpP (parent : Nat) : Tree → String
+  | nil => "."
+  | node c l i k v r =>
+    s!"({i}^{parent} {k} {v} {if c = black then "B" else "R"} {l.dumpP i} {r.dumpP i})"
+
 def Tree.minId : Tree → Nat
   | nil => 0
   | node _ nil i .. => i
